@@ -452,6 +452,8 @@ fn fresh_tag(e: &mut Entropy, used: &mut Vec<u16>) -> u16 {
 ///    as the last field;
 ///  - `Mid`: the same, followed by tagged fields of the enclosing struct whose tags differ from `Inner`'s;
 ///  - `Deep`: `Mid` / `Tail` as an optional length-prefixed member one level further out;
+///  - `Group`: a self-delimiting struct nested without length prefix in front of a few positional fields (a lone trailing
+///    byte 1f / ff is not the start of a tag);
 ///  - `Many`: 3..6 mandatory tagged fields (plus optional ones) in one struct.
 fn directed_family(e: &mut Entropy, defs: &mut Vec<StructDef>) {
     let mut used: Vec<u16> = vec![];
@@ -511,6 +513,24 @@ fn directed_family(e: &mut Entropy, defs: &mut Vec<StructDef>) {
         }
         defs.push(StructDef { ctrl: None, fields: f, depth: 2, self_delimiting: false });
     }
+    // Group: a struct that delimits itself (1..3 positional mandatory scalars), nested WITHOUT a length prefix in front of
+    // 0..2 further positional fields - the last of them often a single byte, optional in half of the cases
+    let g: Vec<FieldDef> = (0..1 + e.below(3)).map(|_| scalar_field(e, None, CardK::One)).collect();
+    defs.push(StructDef { ctrl: None, fields: g, depth: 0, self_delimiting: true });
+    let group = defs.len() - 1;
+    let mut f = (0..e.below(2)).map(|_| scalar_field(e, None, CardK::One)).collect::<Vec<_>>();
+    f.push(FieldDef { card: CardK::One, tag: None, tlv_attr: false, ty: Ty::Struct(group), len: LenK::Empty, enc: EncK::Default, order: e.below(6) as u8 });
+    match e.below(4) {
+        0 => {}
+        1 => f.push(FieldDef { card: CardK::One, tag: None, tlv_attr: false, ty: Ty::Int("u8", 8), len: LenK::Empty, enc: EncK::Default, order: 0 }),
+        2 => f.push(FieldDef { card: CardK::Opt, tag: None, tlv_attr: false, ty: Ty::Int("u8", 8), len: LenK::Empty, enc: EncK::Default, order: 0 }),
+        _ => {
+            f.push(scalar_field(e, None, CardK::One));
+            f.push(FieldDef { card: CardK::One, tag: None, tlv_attr: false, ty: Ty::Int("u8", 8), len: LenK::Empty, enc: if e.below(2) == 0 { EncK::Default } else { EncK::BigEndian }, order: 0 });
+        }
+    }
+    let ctrl = if e.below(3) == 0 { Some((e.next() as u8, e.next() as u8)) } else { None };
+    defs.push(StructDef { ctrl, fields: f, depth: 1, self_delimiting: false });
     // Many
     let mut used2: Vec<u16> = vec![];
     let mut f = positional(e);
